@@ -78,7 +78,10 @@ JoinT(m, p, child) == Tick([m EXCEPT !.vc[p] = VJoin(@, m.vc[child])], p)
 (*   o, f   success / failure memory order as passed by the code            *)
 (*   fences orders of the atomic_thread_fence calls that follow the         *)
 (*          operation in this slice                                         *)
-(*   post   plain accesses that follow, <<[k |-> "R"|"W", l |-> loc], ...>>  *)
+(*   post   plain accesses that follow, <<[k |-> "R"|"W", l |-> loc], ...>>, *)
+(*          and "Rel"/"Acq" entries on an atomic location for the           *)
+(*          synchronisation an executor queue provides between submit and   *)
+(*          take when the queue itself performs no recorded operation       *)
 (* Lock-like operations use fixed orders (their std contract).              *)
 (***************************************************************************)
 RECURSIVE ApplyFences(_, _, _)
@@ -88,7 +91,11 @@ RECURSIVE ApplyPlain(_, _, _)
 ApplyPlain(m, p, acc) ==
   IF acc = <<>> THEN m
   ELSE LET h == Head(acc)
-       IN  ApplyPlain(IF h.k = "R" THEN PRead(m, p, h.l) ELSE PWrite(m, p, h.l), p, Tail(acc))
+       IN  ApplyPlain(CASE h.k = "R"   -> PRead(m, p, h.l)
+                        [] h.k = "W"   -> PWrite(m, p, h.l)
+                        [] h.k = "Rel" -> ARmw(m, p, h.l, "rel")   \* hand-off through an executor queue: submit ...
+                        [] h.k = "Acq" -> ARmw(m, p, h.l, "acq"),  \* ... and take (the queue's own synchronisation)
+                      p, Tail(acc))
 
 AtomicPart(m, p, a, x, ok, o, f) ==
   CASE a \in {"load"}                                -> ALoad(m, p, x, o)
